@@ -7,6 +7,7 @@
 From Coq Require Import List Arith ZArith.
 Import ListNotations.
 Require Import Verif.Snap.PushPop Verif.Snap.Proofs Verif.Snap.Clone.
+Require Verif.gen.SnapFacts Verif.Snap.Fields.
 
 Section C08.
 
@@ -114,6 +115,25 @@ Proof.
            P _ _ _ _ _ (inv_init db db0) H).
 Qed.
 
+(** TIER A: the model's [CPop] IS the pop interpreted from the carry-over list regenerated from the
+    body of `EGraph::pop` (src/lib.rs): each model field is taken from the live e-graph when one of
+    the Rust places it stands for is swapped before `*self = *e`, from the snapshot otherwise; an
+    empty stack is `Err(Error::Pop)` without effect *)
+Theorem c08_pop_is_regenerated : forall (s : sess db) sh,
+  step CPop s sh =
+  match s_stack s with
+  | [] => (s, sh, OErr EPop)
+  | p :: st => (mkSess (Fields.pop_of_facts db SnapFacts.pop_carry (s_cur s) p) st, sh, OOk)
+  end.
+Proof. exact (Fields.pop_is_regenerated db dcmd dout aop aout db_step db_decl db_api decl_extra reject_effect). Qed.
+
+(** ... and [CPush] is the statement list regenerated from `EGraph::push`, interpreted on the model
+    (take the stack, clone self, give the clone the old stack, the clone becomes the stack's head) *)
+Theorem c08_push_is_regenerated : forall (s : sess db) sh,
+  Fields.push_of_facts db SnapFacts.push_body s = Some (fst (fst (step CPush s sh)))
+  /\ snd (step CPush s sh) = OOk /\ snd (fst (step CPush s sh)) = sh.
+Proof. exact (Fields.push_is_regenerated db dcmd dout aop aout db_step db_decl db_api decl_extra reject_effect). Qed.
+
 End C08.
 
 Print Assumptions c08_equiv_is.
@@ -124,6 +144,72 @@ Print Assumptions c08_pop_without_push_errors.
 Print Assumptions c08_registry_liveness.
 Print Assumptions c08_clone_isolated_partial.
 Print Assumptions c08_reachable_inv.
+Print Assumptions c08_pop_is_regenerated.
+Print Assumptions c08_push_is_regenerated.
+
+Section C08Fields.
+Import String Bool SnapFacts Fields.
+Local Open Scope bool_scope.
+Local Open Scope string_scope.
+
+(** (a) the carve-outs of pop: the regenerated carry-over list is exactly the two documented places,
+    it is expressible in the model (every carried place is a place of a model field and a field of
+    the regenerated struct; a model field is carried entirely or not at all), and the model fields
+    carried over are exactly the symbol generator and the run report *)
+Theorem c08_carveouts_are :
+  pop_carry = [["overall_run_report"]; ["parser"; "symbol_gen"]]
+  /\ carry_expressible pop_carry egraph_fields = true
+  /\ (forall f, carried pop_carry f = true <-> f = FGensym \/ f = FReport).
+Proof.
+  split; [reflexivity|]. split; [exact carry_ok|].
+  intros f; split.
+  - destruct f; vm_compute; intros H; try discriminate; auto.
+  - intros [H|H]; subst f; reflexivity.
+Qed.
+
+(** (b) every field of `egglog::EGraph`, `egglog_bridge::EGraph` and `core_relations::Database` is
+    classified: the reviewed tables of Snap/Fields.v list exactly the regenerated fields (same
+    names, same type texts, same order; all three structs `derive(Clone)`), a field is classified
+    Deep iff no reference-counted handle occurs in its type text (after one alias expansion) ... *)
+Theorem c08_fields_classified :
+  table_matches tbl_egraph egraph_fields = true
+  /\ table_matches tbl_bridge bridge_fields = true
+  /\ table_matches tbl_database database_fields = true
+  /\ is_derive egraph_clone_how && is_derive bridge_clone_how && is_derive database_clone_how = true.
+Proof. exact tables_match. Qed.
+
+(** ... every shared-MUTABLE field is a recorded isolation hole and is exactly what the model keeps
+    in its never-copied [shared] record, everything the model copies is classified Deep; the only
+    shared-mutable field is the action registry (finding F6, refuted by
+    [c08_clone_isolated_refuted]) and the only shared scratch cell is the panic side channel *)
+Theorem c08_shared_mutable_recorded :
+  forallb row_model_ok (tbl_egraph ++ tbl_bridge ++ tbl_database) = true
+  /\ rows_with is_shared_mut (tbl_egraph ++ tbl_bridge ++ tbl_database) = ["action_registry"]
+  /\ rows_with is_scratch (tbl_egraph ++ tbl_bridge ++ tbl_database) = ["panic_message"]
+  /\ recorded_holes = ["F6-clone-shared-registry"].
+Proof. split; [exact tables_model_ok|]. destruct shared_rows as [A B]. repeat split; assumption. Qed.
+
+(** the manual deep copy of one table (`impl Clone for TableInfo`): identity copied, name/spec
+    cloned, rows through `dyn_clone`, both index catalogs refreshed against the table and re-wrapped
+    in FRESH `Arc<ResettableOnceLock<_>>`s (never the old Arc); counters get fresh atomic cells *)
+Theorem c08_tableinfo_clone_is :
+  tableinfo_clone =
+    [("identity", "TableIdentity", "self.identity");
+     ("name", "Option<Arc<str>>", "self.name.clone()");
+     ("spec", "TableSpec", "self.spec.clone()");
+     ("table", "WrappedTable", "self.table.dyn_clone()");
+     ("indexes", "IndexCatalog<SmallVec<[ColumnId;4]>,HashIndex>", "deep_clone_map(&self.indexes,self.table.as_ref())");
+     ("column_indexes", "IndexCatalog<ColumnId,HashColumnIndex>", "deep_clone_map(&self.column_indexes,self.table.as_ref())")]
+  /\ tableinfo_deep_clone_map =
+     "{map.map(|table_ref|{let(k,v)=table_ref;letv:Index<TI>=v.get_or_update(|index|{index.refresh(table);}).clone();(k.clone(),Arc::new(ResettableOnceLock::new(v)))})}"
+  /\ counters_clone_fresh_cells = true.
+Proof. repeat split; reflexivity. Qed.
+
+End C08Fields.
+Print Assumptions c08_carveouts_are.
+Print Assumptions c08_fields_classified.
+Print Assumptions c08_shared_mutable_recorded.
+Print Assumptions c08_tableinfo_clone_is.
 
 (** WITHOUT that proviso isolation is false (finding F6), in the faithful model as on the real
     engine: a declares g0; b = a.clone(); b declares g1 (arity 1); a declares g1 (arity 2);
